@@ -310,7 +310,7 @@ func TestRandom(t *testing.T) {
 		Check:      checkSchema,
 		NonTrivial: rich,
 		Classes:    classes,
-		Quick:      1200, Thorough: 12000,
+		Quick:      1800, Thorough: 12000,
 	})
 }
 
@@ -322,7 +322,7 @@ func TestRandomEditions(t *testing.T) {
 		Check:      checkSchema,
 		NonTrivial: rich,
 		Classes:    classes,
-		Quick:      700, Thorough: 8000,
+		Quick:      1000, Thorough: 8000,
 	})
 }
 
@@ -334,7 +334,7 @@ func TestRandomBig(t *testing.T) {
 		Check:      checkSchema,
 		NonTrivial: rich,
 		Classes:    classes,
-		Quick:      100, Thorough: 1200,
+		Quick:      150, Thorough: 1200,
 	})
 }
 
